@@ -25,10 +25,10 @@ def bulk_hook(w, job, part):
 def run(ctx):
     ctx.rule = ('model-guided random histories (2 tokens, <=5 sessions; open/close/close-all/login/logout/create/copy/find/destroy); after EVERY call every '
                 'live handle and a sample of dead ones are probed (sessions: C_GetSessionInfo, objects: C_GetAttributeValue(CKA_LABEL)=unique tag); '
-                'one evaluation = one probe or step; distinct = (handle kind, object kind, expected liveness) classes and session cases actually probed')
+                'one evaluation = one probe or step; distinct = (event kind of the preceding call, handle kind, object kind, expected liveness) classes actually probed')
     n = ctx.q(600, 6000); steps = ctx.q(50, 60)
     run_walks(ctx, {'C11'}, n, steps, weights=W, backends=ctx.q(('file',), ('file', 'db')))
     run_walks(ctx, {'C11'}, ctx.q(8, 32), ctx.q(120, 300), weights=W, backends=('file',), hook=bulk_hook, max_sessions=100000)
     ctx.extra['bulk_scenarios'] = 'additionally 8 (quick) / 32 (thorough) bulk histories with 360-900 sessions and 720-1800 objects each: numeric uniqueness of every handle, liveness after partial close / close-all'
     ctx.assumptions += ['probing uses a session of the same token; cross-token use of a handle is outside the property', 'dead handles beyond a random sample of 10 (objects) / 4 (sessions) per step are not re-probed at that step']
-if __name__ == '__main__': main('C11', run, min_evaluations=1000, min_distinct=8)
+if __name__ == '__main__': main('C11', run, min_evaluations=1000, min_distinct=40)
